@@ -7,6 +7,7 @@ import (
 	"runtime/trace"
 
 	"github.com/bits-and-blooms/bitset"
+	"github.com/gordian-engine/gordian/gcrypto"
 	"github.com/gordian-engine/gordian/internal/gchan"
 	"github.com/gordian-engine/gordian/tm/tmconsensus"
 	"github.com/gordian-engine/gordian/tm/tmengine/tmelink"
@@ -244,41 +245,35 @@ func (s *ChattyStrategy) broadcastUpdatesOnly(ctx context.Context, prev, cur tmc
 		}
 	}
 
-	// Compare the count of set bits in the signature bitsets
+	// Compare the count of signatures, summed over every voted target,
 	// to determine if we need to broadcast updates for those.
+	// The union of signers is not enough: a validator that already voted
+	// and votes again for another target leaves the union's size unchanged.
+	// Views of one round only grow, so an equal sum means nothing was added.
 
-	prevPrevoteBitset := bitset.New(0)
-	var bs bitset.BitSet
-	for _, p := range prev.PrevoteProofs {
-		p.SignatureBitSet(&bs)
-		prevPrevoteBitset.InPlaceUnion(&bs)
-	}
-	curPrevoteBitset := bitset.New(0)
-	for _, p := range cur.PrevoteProofs {
-		p.SignatureBitSet(&bs)
-		curPrevoteBitset.InPlaceUnion(&bs)
-	}
-	if curPrevoteBitset.Count() != prevPrevoteBitset.Count() {
+	if countSignatures(cur.PrevoteProofs) != countSignatures(prev.PrevoteProofs) {
 		if !s.broadcastPrevotes(ctx, cur) {
 			return false
 		}
 	}
 
-	prevPrecommitBitset := bitset.New(0)
-	for _, p := range prev.PrecommitProofs {
-		p.SignatureBitSet(&bs)
-		prevPrecommitBitset.InPlaceUnion(&bs)
-	}
-	curPrecommitBitset := bitset.New(0)
-	for _, p := range cur.PrecommitProofs {
-		p.SignatureBitSet(&bs)
-		curPrecommitBitset.InPlaceUnion(&bs)
-	}
-	if curPrecommitBitset.Count() != prevPrecommitBitset.Count() {
+	if countSignatures(cur.PrecommitProofs) != countSignatures(prev.PrecommitProofs) {
 		if !s.broadcastPrecommits(ctx, cur) {
 			return false
 		}
 	}
 
 	return true
+}
+
+// countSignatures returns the number of signatures in proofs,
+// counting a signer once for every target it signed.
+func countSignatures(proofs map[string]gcrypto.CommonMessageSignatureProof) uint {
+	var bs bitset.BitSet
+	var n uint
+	for _, p := range proofs {
+		p.SignatureBitSet(&bs)
+		n += bs.Count()
+	}
+	return n
 }
